@@ -93,7 +93,14 @@ func FillFromDatum(s *refavro.Schema, d any, t *gen.T, v reflect.Value) error {
 			if s.Type == "int" {
 				tm = time.Unix(x*86400, 0).UTC()
 			} else {
-				tm = time.Unix(0, x*logicalMult(s)).UTC()
+				switch logicalMult(s) {
+				case 1e6:
+					tm = time.UnixMilli(x).UTC() // the specification's instant, also beyond the int64-nanosecond years
+				case 1e3:
+					tm = time.UnixMicro(x).UTC()
+				default:
+					tm = time.Unix(0, x).UTC()
+				}
 			}
 			v.Set(reflect.ValueOf(tm))
 		default:
